@@ -173,6 +173,7 @@ func (e *c11Exec) run(lm *mon.LeakMonitor) {
 	}
 	if e.writer == nil {
 		e.writer = mon.NewRecWriter()
+		e.writer.Yield = true // widen the window in which an unserialised second Write would overlap
 	}
 	if e.reader == nil {
 		e.reader = &mon.FaultReader{Doc: e.doc, K: -1}
@@ -248,6 +249,13 @@ func c11Judge(c *Ctx, cs *Case, e *c11Exec, det map[string]any) bool {
 	case e.guard.Timeout:
 		c.Inconclusive(cs, "watchdog fired while goroutines were still active: "+e.guard.Signature)
 		return false
+	}
+	if e.writer != nil {
+		// the caller's writer is not goroutine-safe in general: Write calls must never overlap
+		if _, _, conc := e.writer.Stats(); conc > 1 {
+			det["max_concurrent_writes"] = conc
+			c.Violation(cs, "writer.called-concurrently", e.op, det)
+		}
 	}
 	if e.leak != nil {
 		if e.leak.Active {
